@@ -216,7 +216,10 @@ theorem tstep_linv {c : CCfg} (hnd : 1 ≤ c.nDeact) {s s1 : St} (tid : Nat) (ch
       · rw [upd_other _ _ e]; exact hI.noNoop i
   · -- w0
     rename_i f cs hpc
-    split at h <;>
+    split at h
+    · split at h <;>
+      · simp only [Option.some.injEq] at h; subst h
+        exact linv_move tid _ hI (by rw [hpc]; rfl) rfl
     · simp only [Option.some.injEq] at h; subst h
       exact linv_move tid _ hI (by rw [hpc]; rfl) rfl
   · -- w1
